@@ -11,7 +11,10 @@
 (*   close()         CallClose / CloseBody / ClosePq / wake-ups            *)
 (*   environment     gateway accepts / refuses, feeds packets, ends the    *)
 (*                   stream; the user calls connect() and close() at any   *)
-(*                   time; a failed send() spawns another connect()        *)
+(*                   time                                                  *)
+(*   send()          SendStart (write, suspended in drain()) / SendOk /    *)
+(*                   SendFail (the fault handler: unless CLOSED, report    *)
+(*                   DISCONNECTED and spawn a connect())                   *)
 (* The event loop is cooperative: timers (sleeps, slow callbacks) fire     *)
 (* only when no task is ready to run, earliest first.                      *)
 (*                                                                         *)
@@ -31,9 +34,13 @@ Insts == 1..NC
 
 VARIABLES st, lock, cpc, ck, cconn, cwake, cs, nconn, writer,
           rpc, rcancel, rconn, rwake, avail, q, ppc, pcancel,
-          clpc, clwake, now, mon, refusals, feeds, eofs, spawned
+          clpc, clwake, now, mon, refusals, feeds, eofs, spawned,
+          spc, sconn, swake   \* send(): "idle" | "drain" (suspended after a write on link sconn) | "cb" (in the
+                              \* suspending DISCONNECTED callback of its fault handler, until swake)
 vars == <<st, lock, cpc, ck, cconn, cwake, cs, nconn, writer, rpc, rcancel, rconn, rwake, avail, q, ppc, pcancel,
-          clpc, clwake, now, mon, refusals, feeds, eofs, spawned>>
+          clpc, clwake, now, mon, refusals, feeds, eofs, spawned, spc, sconn, swake>>
+
+sendvars == <<spc, sconn, swake>>
 
 StName(s) == CASE s = "D" -> "DISCONNECTED" [] s = "C" -> "CONNECTED" [] s = "X" -> "CLOSED"
 E(e, s, t, k, sv, conn, r) == [e |-> e, st |-> StName(s), t |-> t, k |-> k, s |-> sv, conn |-> conn, r |-> r]
@@ -51,6 +58,7 @@ Init ==
   /\ q = 0 /\ ppc = "get" /\ pcancel = FALSE
   /\ clpc = "none" /\ clwake = -1 /\ now = 0 /\ mon = MonInit
   /\ refusals = 0 /\ feeds = 0 /\ eofs = 0 /\ spawned = NU
+  /\ spc = "idle" /\ sconn = 0 /\ swake = -1
 
 \* mon.last = the events of this step (what a trace of the real client is matched against)
 Emit(evs) == mon' = [MonRun(mon, evs, 1) EXCEPT !.last = evs]
@@ -81,12 +89,14 @@ StartBlock(i, evs0) ==
   ELSE Attempt(i, evs0)
 
 UserConnect(i) ==
+  /\ UNCHANGED sendvars
   /\ i <= NU /\ cpc[i] = "idle"
   /\ StartBlock(i, <<E("CallConnect", st, now, 0, "", 0, "")>>)
   /\ UNCHANGED <<st, ck, cwake, writer, rpc, rcancel, rconn, rwake, avail, q, ppc, pcancel, clpc, clwake, now,
                  refusals, feeds, eofs, spawned>>
 
 SpawnedStart(i) ==
+  /\ UNCHANGED sendvars
   /\ cpc[i] = "spawned"
   /\ StartBlock(i, <<>>)
   /\ UNCHANGED <<st, ck, cwake, writer, rpc, rcancel, rconn, rwake, avail, q, ppc, pcancel, clpc, clwake, now,
@@ -114,6 +124,7 @@ StateBlock(i, c, evs0, cw) ==
             ELSE /\ SpawnBlock(i, c, evs, "C") /\ cwake' = cw
 
 COpened(i) ==
+  /\ UNCHANGED sendvars
   /\ cpc[i] = "opening" /\ cs[cconn[i]] \in {"open", "eof"}
   /\ UNCHANGED now
   /\ LET c == cconn[i]
@@ -127,6 +138,7 @@ COpened(i) ==
   /\ UNCHANGED <<ck, cconn, nconn, rconn, rwake, avail, q, ppc, pcancel, clpc, clwake, refusals, feeds, eofs, spawned>>
 
 COpenFailed(i) ==
+  /\ UNCHANGED sendvars
   /\ cpc[i] = "opening" /\ cs[cconn[i]] = "refused"
   /\ ck' = [ck EXCEPT ![i] = @ + 1] /\ cpc' = [cpc EXCEPT ![i] = "backoff"]
   /\ cwake' = [cwake EXCEPT ![i] = now + Delay(ck[i] + 1)]
@@ -144,12 +156,14 @@ LoopHead(r, evs) ==
        /\ Emit(evs \o <<E("ReadStart", st', now, 0, "", writer, "")>>)
 
 RStart(r) ==
+  /\ UNCHANGED sendvars
   /\ rpc[r] = "start" /\ ~rcancel[r]
   /\ UNCHANGED st /\ LoopHead(r, <<>>)
   /\ UNCHANGED <<lock, cpc, ck, cconn, cwake, cs, nconn, writer, rcancel, rwake, avail, q, ppc, pcancel, clpc, clwake,
                  now, refusals, feeds, eofs, spawned>>
 
 RPacket(r) ==
+  /\ UNCHANGED sendvars
   /\ rpc[r] = "reading" /\ ~rcancel[r] /\ avail[rconn[r]] > 0
   /\ avail' = [avail EXCEPT ![rconn[r]] = @ - 1] /\ q' = q + 1
   /\ UNCHANGED st /\ LoopHead(r, <<E("ReadEnd", st, now, 0, "", rconn[r], "")>>)
@@ -160,6 +174,7 @@ RPacket(r) ==
 SpawnConnect == /\ spawned < NC /\ spawned' = spawned + 1 /\ cpc' = [cpc EXCEPT ![spawned + 1] = "spawned"]
 
 RFault(r) ==
+  /\ UNCHANGED sendvars
   /\ rpc[r] = "reading" /\ ~rcancel[r] /\ avail[rconn[r]] = 0 /\ cs[rconn[r]] \in {"eof", "shut"}
   /\ LET ev0 == <<E("ReadEnd", st, now, 0, "", rconn[r], "")>> IN
        IF st = "X"
@@ -174,6 +189,7 @@ RFault(r) ==
                  now, refusals, feeds, eofs>>
 
 RCancelled(r) ==
+  /\ UNCHANGED sendvars
   /\ rcancel[r] /\ rpc[r] \in {"start", "reading", "cbDisc"}
   /\ rpc' = [rpc EXCEPT ![r] = "done"] /\ rwake' = [rwake EXCEPT ![r] = -1]
   /\ Emit(IF rpc[r] = "reading" THEN <<E("ReadCancelled", st, now, 0, "", rconn[r], "")>> ELSE <<>>)
@@ -183,17 +199,20 @@ RCancelled(r) ==
 ----------------------------------------------------------------------------
 (* _process_queue *)
 PGet ==
+  /\ UNCHANGED sendvars
   /\ ppc = "get" /\ ~pcancel /\ q > 0 /\ st # "X"
   /\ q' = q - 1 /\ Emit(<<E("Deliver", st, now, 0, "", 0, "")>>)
   /\ UNCHANGED <<st, lock, cpc, ck, cconn, cwake, cs, nconn, writer, rpc, rcancel, rconn, rwake, avail, ppc, pcancel,
                  clpc, clwake, now, refusals, feeds, eofs, spawned>>
 \* a message taken from the queue just as close() runs is still handed over before the CLOSED test is reached
 PGetLast ==
+  /\ UNCHANGED sendvars
   /\ ppc = "get" /\ ~pcancel /\ q > 0 /\ st = "X" /\ clpc \notin {"done"}
   /\ q' = q - 1 /\ ppc' = "dead" /\ Emit(<<E("Deliver", st, now, 0, "", 0, "")>>)
   /\ UNCHANGED <<st, lock, cpc, ck, cconn, cwake, cs, nconn, writer, rpc, rcancel, rconn, rwake, avail, pcancel,
                  clpc, clwake, now, refusals, feeds, eofs, spawned>>
 PCancelled ==
+  /\ UNCHANGED sendvars
   /\ pcancel /\ ppc # "dead" /\ ppc' = "dead"
   /\ UNCHANGED <<st, lock, cpc, ck, cconn, cwake, cs, nconn, writer, rpc, rcancel, rconn, rwake, avail, q, pcancel,
                  clpc, clwake, now, refusals, feeds, eofs, spawned>> /\ Emit(<<>>)
@@ -214,6 +233,7 @@ CloseBody(evs0) ==
         ELSE /\ ClosePq(evs) /\ UNCHANGED rcancel
 
 CallClose ==
+  /\ UNCHANGED sendvars
   /\ clpc = "none"
   /\ st' = "X"
   /\ LET evs == <<E("CallClose", st, now, 0, "", 0, "")>>
@@ -235,12 +255,13 @@ Ready ==
                       \/ (rpc[r] = "reading" /\ (avail[rconn[r]] > 0 \/ cs[rconn[r]] \in {"eof", "shut"}))
   \/ (ppc = "get" /\ (q > 0 \/ pcancel))
 Sleepers == {cwake[i] : i \in {j \in Insts : cwake[j] >= 0}} \cup {rwake[r] : r \in {x \in Conns : rwake[x] >= 0}}
-            \cup (IF clwake >= 0 THEN {clwake} ELSE {})
+            \cup (IF clwake >= 0 THEN {clwake} ELSE {}) \cup (IF swake >= 0 THEN {swake} ELSE {})
 Earliest(w) == w >= 0 /\ \A x \in Sleepers : w <= x
 Tick(w) == now' = IF w > now THEN w ELSE now
 Due(w) == Earliest(w) /\ (~Ready \/ w <= now)
 
 CWake(i) ==
+  /\ UNCHANGED sendvars
   /\ Due(cwake[i]) /\ Tick(cwake[i])
   /\ CASE cpc[i] = "backoff" ->
             /\ LET evs0 == <<>> IN
@@ -262,11 +283,13 @@ CWake(i) ==
   /\ UNCHANGED <<ck, writer, rconn, rwake, avail, q, ppc, pcancel, clpc, clwake, refusals, feeds, eofs, spawned>>
 
 RWake(r) ==
+  /\ UNCHANGED sendvars
   /\ Due(rwake[r]) /\ Tick(rwake[r]) /\ rpc[r] = "cbDisc"
   /\ rwake' = [rwake EXCEPT ![r] = -1] /\ rpc' = [rpc EXCEPT ![r] = "done"] /\ SpawnConnect
   /\ UNCHANGED <<st, lock, ck, cconn, cwake, cs, nconn, writer, rcancel, rconn, avail, q, ppc, pcancel, clpc, clwake, refusals, feeds, eofs>> /\ Emit(<<>>)
 
 ClWake ==
+  /\ UNCHANGED sendvars
   /\ Due(clwake) /\ Tick(clwake)
   /\ UNCHANGED st
   /\ CASE clpc = "cb" ->
@@ -296,37 +319,68 @@ ClWake ==
 ----------------------------------------------------------------------------
 (* environment *)
 GwAccept(c) ==
+  /\ UNCHANGED sendvars
   /\ cs[c] = "pending" /\ cs' = [cs EXCEPT ![c] = "open"]
   /\ UNCHANGED <<st, lock, cpc, ck, cconn, cwake, nconn, writer, rpc, rcancel, rconn, rwake, avail, q, ppc, pcancel,
                  clpc, clwake, now, refusals, feeds, eofs, spawned>> /\ Emit(<<>>)
 GwRefuse(c) ==
+  /\ UNCHANGED sendvars
   /\ cs[c] = "pending" /\ refusals < MaxRefuse /\ refusals' = refusals + 1
   /\ cs' = [cs EXCEPT ![c] = "refused"]
   /\ UNCHANGED <<st, lock, cpc, ck, cconn, cwake, nconn, writer, rpc, rcancel, rconn, rwake, avail, q, ppc, pcancel,
                  clpc, clwake, now, feeds, eofs, spawned>> /\ Emit(<<>>)
 Feed(c) ==
+  /\ UNCHANGED sendvars
   /\ cs[c] = "open" /\ feeds < MaxFeed /\ feeds' = feeds + 1 /\ avail' = [avail EXCEPT ![c] = @ + 1]
   /\ UNCHANGED <<st, lock, cpc, ck, cconn, cwake, cs, nconn, writer, rpc, rcancel, rconn, rwake, q, ppc, pcancel,
                  clpc, clwake, now, refusals, eofs, spawned>> /\ Emit(<<E("Feed", st, now, 0, "", c, "")>>)
 Eof(c) ==
+  /\ UNCHANGED sendvars
   /\ cs[c] = "open" /\ eofs < MaxEof /\ eofs' = eofs + 1 /\ cs' = [cs EXCEPT ![c] = "eof"]
   /\ Emit(<<E("Fault", st, now, 0, "", c, "")>>)
   /\ UNCHANGED <<st, lock, cpc, ck, cconn, cwake, nconn, writer, rpc, rcancel, rconn, rwake, avail, q, ppc, pcancel,
                  clpc, clwake, now, refusals, feeds, spawned>>
-\* a send() that failed while the link still looked healthy: DISCONNECTED is reported, a connect() is spawned
-SendFails ==
-  /\ st = "C" /\ writer # 0 /\ spawned < NC /\ clpc = "none"
-  /\ st' = "D" /\ SpawnConnect
-  /\ cs' = [cs EXCEPT ![writer] = IF @ = "open" THEN "eof" ELSE @]      \* a failing write means the link is dead
-  /\ Emit(<<E("WriteError", st, now, 0, "", writer, ""), E("Status", "D", now, 0, "DISCONNECTED", 0, "")>>)
+\* send(): the user may call it at any time once a link exists (also while close() runs, also after it).  The write
+\* goes to the current link; drain() may suspend (back-pressure).  One send at a time (MC_Send has the lock).
+SendStart ==
+  /\ spc = "idle" /\ writer # 0 /\ sconn = 0           \* (one send per behaviour keeps the model small)
+  /\ spc' = "drain" /\ sconn' = writer
+  /\ UNCHANGED <<st, lock, cpc, ck, cconn, cwake, cs, nconn, writer, rpc, rcancel, rconn, rwake, avail, q, ppc, pcancel,
+                 clpc, clwake, now, refusals, feeds, eofs, spawned, swake>> /\ Emit(<<>>)
+\* drain() returns: the link took the data
+SendOk ==
+  /\ spc = "drain" /\ cs[sconn] = "open" /\ spc' = "idle"
+  /\ UNCHANGED <<st, lock, cpc, ck, cconn, cwake, cs, nconn, writer, rpc, rcancel, rconn, rwake, avail, q, ppc, pcancel,
+                 clpc, clwake, now, refusals, feeds, eofs, spawned, sconn, swake>> /\ Emit(<<>>)
+\* the write or drain() raises (the link died, or close() shut it meanwhile).  The fault handler of send() looks at the
+\* state when the failure surfaces: CLOSED, or the link written to is no longer the current one -> nothing; otherwise
+\* DISCONNECTED is reported (if it is a change) and a connect() is spawned.  (Without the stale-link test TLC finds
+\* a behaviour that ends DISCONNECTED for good on a healthy link: MC_Client_slow, NeverStuck.)
+SendFail ==
+  /\ spc = "drain"
+  /\ cs' = [cs EXCEPT ![sconn] = IF @ = "open" THEN "eof" ELSE @]      \* a failing write means the link is dead
+  /\ IF st = "X" \/ sconn # writer        \* closed, or the link has been replaced meanwhile: the failure is only logged
+     THEN /\ spc' = "idle" /\ Emit(<<E("WriteError", st, now, 0, "", sconn, "")>>) /\ UNCHANGED <<st, cpc, spawned, swake>>
+     ELSE /\ st' = "D"
+          /\ Emit(<<E("WriteError", st, now, 0, "", sconn, "")>>
+                  \o (IF st # "D" THEN <<E("Status", "D", now, 0, "DISCONNECTED", 0, "")>> ELSE <<>>))
+          /\ IF "D" \in SlowSet /\ st # "D"
+             THEN /\ spc' = "cb" /\ swake' = now + CbPause /\ UNCHANGED <<cpc, spawned>>
+             ELSE /\ spc' = "idle" /\ SpawnConnect /\ UNCHANGED swake
   /\ UNCHANGED <<lock, ck, cconn, cwake, nconn, writer, rpc, rcancel, rconn, rwake, avail, q, ppc, pcancel,
-                 clpc, clwake, now, refusals, feeds, eofs>>
+                 clpc, clwake, now, refusals, feeds, eofs, sconn>>
+\* the suspending callback returns: the handler spawns the connect() (whatever the state is by now)
+SWake ==
+  /\ spc = "cb" /\ Due(swake) /\ Tick(swake)
+  /\ spc' = "idle" /\ swake' = -1 /\ SpawnConnect /\ Emit(<<>>)
+  /\ UNCHANGED <<st, lock, ck, cconn, cwake, cs, nconn, writer, rpc, rcancel, rconn, rwake, avail, q, ppc, pcancel,
+                 clpc, clwake, refusals, feeds, eofs, sconn>>
 
 Client == \/ \E i \in Insts : UserConnect(i) \/ SpawnedStart(i) \/ COpened(i) \/ COpenFailed(i) \/ CWake(i)
           \/ \E r \in Conns : RStart(r) \/ RPacket(r) \/ RFault(r) \/ RCancelled(r) \/ RWake(r)
           \/ PGet \/ PGetLast \/ PCancelled \/ CallClose \/ ClWake
 Env == \E c \in Conns : GwAccept(c) \/ GwRefuse(c) \/ Feed(c) \/ Eof(c)
-Next == Client \/ Env \/ SendFails
+Next == Client \/ Env \/ SendStart \/ SendOk \/ SendFail \/ SWake
 Spec == Init /\ [][Next]_vars
 
 ----------------------------------------------------------------------------
